@@ -1,8 +1,11 @@
 ----------------------------- MODULE PullAuthMC -----------------------------
 (***************************************************************************)
 (* Design-level model checking of the C11 decision table: every abstract   *)
-(* row is an initial state; the invariants are the rules the statement     *)
-(* spells out.  A failure here is a specification problem.                 *)
+(* row is a state (a successor of one start state - TLC's workers share    *)
+(* next-state generation, not initial states); the invariants are the      *)
+(* rules the statement spells out.  A failure here is a specification      *)
+(* problem.  The row sets are not named as constants on purpose: TLC       *)
+(* evaluates constant definitions eagerly.                                 *)
 (***************************************************************************)
 EXTENDS PullAuth
 
